@@ -1,3 +1,4 @@
+import Hm.C18Label
 import Hm.C16Select
 import Hm.C04Category
 import Hm.C18Req
@@ -136,3 +137,5 @@ import Hm.Statements
 #print axioms forLabel_latin1
 #print axioms forLabel_utf8
 #print axioms forLabel_unknown
+#print axioms C18_charset_label_case
+#print axioms C18_charset_label_case'
